@@ -221,6 +221,9 @@ impl Monitor for C04Frame {
                     None => {
                         if let Some(cfg) = config_of(ev.pre, &cfgk) {
                             need!(signed(&cfg.fee_authority), "created_without_its_authority", "config extension {} created without the fee authority's signature", k);
+                            // ... and is born under that authority: whoever merely paid the rent gains nothing
+                            let born = (Pubkey::new_from_array(b[40..72].try_into().unwrap()), Pubkey::new_from_array(b[72..104].try_into().unwrap()));
+                            need!(born.0 == cfg.fee_authority && born.1 == cfg.fee_authority, "authority_born_in_other_hands", "config extension {} is born with authorities {} / {} although the config's fee authority, which created it, is {}", k, born.0, born.1, cfg.fee_authority);
                         }
                     }
                     Some(a) => {
